@@ -71,6 +71,14 @@ let register (reg : string -> (string list -> string) -> unit) : unit =
       let e = MqModel.enc_encode_list (MqModel.enc_new (nat_of_int (int_of_string n))) (pairs_of_string ps) in
       hex_of_bytes (MqModel.enc_get_buffer (MqModel.enc_erterm e))
     | _ -> "?");
+  (* mq_mixed <ctxbytes> <kind:ctx,...> <hex> : Decode(ctx) (kind 0) / RawDecode() (kind 1) interleaved
+     on one decoder -> ok:<bits>;bp *)
+  reg "mq_mixed" (fun a -> match a with
+    | [cx; ops; h] ->
+      outcome_string (fun (d, bits) -> bits_to_string bits ^ ";" ^ string_of_int (int_of_z d.MqModel.d_bp))
+        (Base.obind (MqModel.dec_new_cx (bytes_of_hex h) (zlist_of_string cx))
+           (fun d -> MqModel.dec_mixed_list d (pairs_of_string ops)))
+    | _ -> "?");
   (* mq_rawdecode <nbits> <hex> -> ok:<bits> *)
   reg "mq_rawdecode" (fun a -> match a with
     | [n; h] ->
